@@ -526,8 +526,9 @@ Crash ==
   /\ Emit([a |-> "crash"])
 
 \* killed in the middle of a step that makes several file-system mutations
-\*  - inside a command: targets 1..k-1 of the command are complete, target k has just been created (empty) or is half written
-CrashInExec(t, k, torn) ==
+\*  - inside a command: targets 1..k-1 of the command are complete; target k has just been created ("empty"), is half written ("torn")
+\*    or is written but has not got its mode yet ("full")
+CrashInExec(t, k, how) ==
   /\ Live(t) /\ tl[t].pc = "exec"
   /\ LET r == RuleOf(t)
          sc == [j \in DOMAIN r.src |-> IF Has(ws, r.src[j]) THEN ws[r.src[j]].c ELSE "MISSING"]
@@ -538,7 +539,8 @@ CrashInExec(t, k, torn) ==
                     IF \E i \in written : i < k /\ r.tg[i] = p
                     THEN [c |-> Out(r, IdxOf(r.tg, p), sc, env), m |-> Stamp(IdxOf(r.tg, p)), x |-> r.x \/ (Has(ws, p) /\ ws[p].x)]
                     ELSE IF p = r.tg[k]
-                    THEN [c |-> IF torn THEN "T[" \o Out(r, k, sc, env) \o "]" ELSE "", m |-> Stamp(k), x |-> Has(ws, p) /\ ws[p].x]
+                    THEN [c |-> CASE how = "torn" -> "T[" \o Out(r, k, sc, env) \o "]" [] how = "full" -> Out(r, k, sc, env) [] OTHER -> "",
+                          m |-> Stamp(k), x |-> Has(ws, p) /\ ws[p].x]
                     ELSE ws[p]]
         /\ Bump(k)
         /\ VolReset /\ verdict' = "none"
